@@ -21,7 +21,8 @@ RULE = (
     "chunks, Arrow-backed pandas, polars), fully monotonic, partially monotonic (sorted prefix > n/4) and chunk-wise "
     "(threshold scaled down from the harness, 1-6 chunks), sort on/off, optionally after an earlier masked/unmasked reduction on the same object; plus the module functions factorize_1d, "
     "factorize_2d (array and dict tracker) and monotonic_factorization.  All 2-key tables with n <= 5 (quick: 4) "
-    "over {a,b,null} x {x,y,null} are enumerated for factorize_2d with both trackers.  Non-trivial = >= 2 distinct "
+    "over {a,b,null} x {x,y,null} are enumerated for factorize_2d with both trackers, and all float key sequences over "
+    "{2,1,3,NaN} of length <= 5 (quick) / 7 on the chunk-wise and monotonic routes (threshold 1, 1-3 chunks, sort on/off).  Non-trivial = >= 2 distinct "
     "labels and (a null somewhere, or a non-plain route, or several keys).  Distinct = case hash (sampled) or by "
     "construction (enumerated)."
 )
@@ -250,6 +251,46 @@ def _gb_check(case, ctx, route, rows, keys, shim):
         check_partition(rows, codes2, labels2, "codes-after-groups")
 
 
+# ---- exhaustive: every short float key sequence over {2,1,3,NaN} on the chunk-wise / monotonic routes ------------------
+def gb_enum(tier, variant, replica, nreplicas):
+    lmax = 5 if tier == "quick" else 7
+    alpha = [2.0, 1.0, 3.0, None]
+    i = 0
+    for L in range(1, lmax + 1):
+        for vals in itertools.product(alpha, repeat=L):
+            for kchunks in (1, 2, 3):
+                i += 1
+                if i % nreplicas != replica:
+                    continue
+                yield {"route": "chunkwise", "n": L, "sort": variant == "sorted", "keys": [{"t": "float", "vals": list(vals), "name": None}],
+                       "kc": "np", "threshold": 1, "key_chunks": kchunks, "prior": "none", "prior_mask": []}
+
+
+def gb_enum_check(case, ctx):
+    rows = key_rows_of(case)
+    keys = render_keys(case)
+    ctx.evaluations += 1
+    ctx.per_sub["gb_enum"] += 1
+    distinct = {r for r in rows if r is not None}
+    if len(distinct) >= 2:
+        ctx.nontrivial_constructed += 1
+        if len(ctx.samples) < ctx.sample_cap and case["n"] >= 4 and ctx.evaluations % 211 == 0:
+            ctx.samples.append({"sub": "gb_enum", "case": case})
+    _gb_check_quiet(case, rows, keys)
+    lmax = 5 if ctx.tier == "quick" else 7
+    txt = f"GroupBy chunk-wise/monotonic routes: all float key sequences over {{2,1,3,NaN}} of length <= {lmax} x 1..3 chunks x sort on/off"
+    if txt not in ctx.exhaustive:
+        ctx.exhaustive.append(txt)
+
+
+def _gb_check_quiet(case, rows, keys):
+    class _NoCtx:
+        def seen(self, *a, **k):
+            pass
+
+    _gb_check(case, _NoCtx(), case["route"], rows, keys, gbops.Shims(threshold=case["threshold"], key_chunks=case["key_chunks"]))
+
+
 # ---------------------------------------------------------------------------
 @st.composite
 def f1d_case(draw, variant):
@@ -382,6 +423,7 @@ def mono_check(case, ctx):
 SUBS = [
     Sub("gb", gb_check, strategy=lambda tier, v: gb_case(v), variants=("a", "b", "c"), examples=(3000, 60000),
         replicas=(3, 8), cost={"a": 150, "b": 200, "c": 150}),
+    Sub("gb_enum", gb_enum_check, enumerate=gb_enum, variants=("sorted", "unsorted"), replicas=(2, 8), cost={"sorted": 60, "unsorted": 60}),
     Sub("factorize_1d", f1d_check, strategy=lambda tier, v: f1d_case(v), variants=("np", "arrow"), examples=(1500, 30000),
         replicas=(1, 4), cost={"np": 40, "arrow": 40}),
     Sub("factorize_2d", f2d_check, strategy=lambda tier, v: f2d_case(v), variants=("-",), examples=(2000, 40000),
